@@ -151,7 +151,7 @@ fn specs() -> Vec<CheckSpec> {
     CheckSpec {
         id: "C17",
         profile: Profile::TwoHop,
-        more_profiles: &[],
+        more_profiles: &[Profile::TwoHop, Profile::T22],
         mk: mk_c17,
         level: "exploration",
         rule: "three pools over three mints (all four direction combinations arise), a router actor quoting on a stale view, plus LPs/traders/keeper under the same faults; every landed two-hop (v1, v2; successful or not) is replayed on a fork of its pre-state as its two single swaps with the second leg's input equal to the first leg's output (exact-out: intermediate amount learned on a scratch fork); success <=> both legs succeed with matching intermediate amount, distinct pools, shared mint and threshold met; on success all pool-side bytes (pools, tick arrays, oracles, vaults) and the trader's balances must be equal; a case is one (instruction, mode, directions, outcome, singles outcome, limits) tuple",
